@@ -56,6 +56,8 @@ def viaRegister : UseKind → Bool
   | .timerAs _ => true
   | .counterAs => true
   | .gaugeAs => true
+  | .counterAsD _ => true
+  | .gaugeAsD _ => true
   | _ => false
 
 /-- the caller gets a usable metric; or Prometheus' rejection went to the callback (once) and the
@@ -139,10 +141,14 @@ def expectedHistogram (spec : HSpec) (samples : List Sample) : GVal :=
 and a counter obtained through `RegisterCounter` adds into the same series as an `AllocateCounter`
 one (sums do not depend on when a buffered delta is delivered).  A gauge written directly
 (`RegisterGauge`) and a buffered one (`AllocateGauge`) under one name are the excluded reuse: the
-buffered value is delivered by the next report pass, over a later direct `Set`. -/
+buffered value is delivered by the next report pass, over a later direct `Set`.  The help text a
+caller passes to `RegisterCounter` / `RegisterGauge` is no part of the kind: a vector found in the
+cache is handed out whatever text the call carries, and all direct writers share the series. -/
 def normKind (histTimers : Bool) : UseKind → UseKind
   | .timer => .timerAs histTimers
   | .counterAs => .counter
+  | .counterAsD _ => .counter
+  | .gaugeAsD _ => .gaugeAs
   | k => k
 
 def typeOf (histTimers : Bool) : UseKind → Kind
@@ -153,6 +159,8 @@ def typeOf (histTimers : Bool) : UseKind → Kind
   | .histogram _ => .histogram
   | .counterAs => .counter
   | .gaugeAs => .gauge
+  | .counterAsD _ => .counter
+  | .gaugeAsD _ => .gauge
 
 def gkind : GVal → Kind
   | .counter _ => .counter
@@ -173,8 +181,8 @@ def histCount : GVal → Option Nat
 /-- the value clause for one listed series; `kind` is the (common) kind of the live uses of it -/
 def valueOk (kind : UseKind) (evs : List LEv) (v : GVal) : Bool :=
   match kind with
-  | .counter | .counterAs => v == .counter (incSum evs)
-  | .gauge | .gaugeAs => v == .gauge (lastUpdate evs 0)
+  | .counter | .counterAs | .counterAsD _ => v == .counter (incSum evs)
+  | .gauge | .gaugeAs | .gaugeAsD _ => v == .gauge (lastUpdate evs 0)
   | .timer | .timerAs _ =>
     (match v with
      | .summary c => c == recordCount evs
